@@ -4,7 +4,7 @@
     (in order, duplicate, skip, foreign, swap) and Dechunker.WriteChunk; invariants SenderOK (contiguous
     sequence numbers, exactly one last flag, lengths), Reassembled, NoWrongContent for every
     (N <= 3S+1, S <= 3, variant, tamper); negative controls.
-(B) every case is concretised with random bytes (unit 1, 7, 1024 bytes; 700 KiB in the thorough tier
+(B) every case is concretised with random bytes (unit 1, 7, 1024 bytes; 1 MiB in the thorough tier
     to cross the 1 MiB internal buffer), run through the real Chunker/Dechunker and compared:
     chunk sequence, rejections, completion, reassembled bytes; aborts go through the real
     CommandProcessor and must leave no file behind."""
